@@ -239,7 +239,7 @@ def from_result_cases():
 
                 interp.contracts["halmos.solve:parse_unsat_core"] = parse
                 interp.contracts["halmos.solve:parse_model_str"] = lambda i, a, k: {}
-                pc = types.SimpleNamespace(args=config(cache_solver=True) if cache else config(), path_id=5, dump_file="/nonexistent/q.smt2")
+                pc = types.SimpleNamespace(args=config(cache_solver=True) if cache else config(), path_id=5, dump_file="/nonexistent/q.smt2", is_refined=False)
                 stdout = first + "\n(<5> <9>)\n"
                 r = interp.call(fr, [stdout, "", 0, pc], {})
                 if first == "unsat" and cache:
